@@ -6,7 +6,7 @@ from collections import Counter
 
 from hypothesis import strategies as st
 
-from vlib import env, drive, colgen, fakes3, findings
+from vlib import env, drive, colgen, fakes3, findings, gen
 from vlib.findings import Collector, h64
 from vlib.step import Failure
 
@@ -157,7 +157,7 @@ def shrink(case, still):
 def cases(draw):
     col = draw(colgen.collection(max_msgs=10, faults=draw(st.sampled_from(['none', 'some', 'some', 'heavy']))))
     docs = col['docs']
-    order = list(draw(st.permutations(range(len(docs)))))
+    order = list(draw(gen.permutation(range(len(docs)))))
     return {'docs': docs, 'order': order, 'strict': draw(st.booleans()),
             'source': draw(st.sampled_from(['strings', 'strings', 'files', 's3'])),
             'page_size': draw(st.integers(1, 4)), 'has_delete': col['has_delete']}
